@@ -248,6 +248,19 @@ pub fn gen(tier: &str, r: &mut Rng) -> Vec<String> {
         lines.push("END".into());
         out.push(format!("c01 wrap Loose {} {}", n_atoms, enc_bytes((lines.join("\n") + "\n").as_bytes())));
     }
+    // ... and a chain whose residue numbers wrap twice (one atom per residue, more than 20 000 residues)
+    {
+        let n_atoms = 20_030;
+        let mut lines = Vec::with_capacity(n_atoms + 2);
+        let mut rr = Rng::new(77, "wrap-twice");
+        for i in 0..n_atoms {
+            let a = AtomRec { het: true, serial: (i + 1) % 100000, name: "O".into(), alt: ' ', resname: "HOH".into(), chain: 'W', resseq: ((i + 1) % 10000) as i64, icode: ' ',
+                x: (i % 1000) as i64 * 1000, y: 0, z: 0, occ: 1_000_000, b: 0, seg: String::new(), element: "O".into(), charge: 0, aniso: None };
+            lines.push(pdbtext::atom_line(&a, &mut rr, false));
+        }
+        lines.push("END".into());
+        out.push(format!("c01 wrap Loose {} {}", n_atoms, enc_bytes((lines.join("\n") + "\n").as_bytes())));
+    }
     out
 }
 
